@@ -131,6 +131,7 @@ func c01(r *core.Report) {
 	}
 	r.Assumption("the accept/reject iff itself (type dispatch over dynamic types, enum equality, float arithmetic, UTF-16 counting, regexp semantics, oneOf counting) is not decided; only its structural necessary conditions")
 	c01Unique(r)
+	c01EmptyParts(r)
 
 	// ---------------- C01.cmp
 	r.RunRule("C01.cmp", "keyword <-> comparison table: each bound keyword's failure site is guarded by exactly the negation of the JSON-Schema draft-4 relation between the value-derived operand and the operand derived from that keyword's Schema field (operand roles by dependency roots, not by name); exclusive bounds additionally guarded by their flag; uniqueItems by flag and checker(value); multipleOf tests value / bound; required tests key absence in value", 13, func() {
@@ -826,5 +827,52 @@ func c01Unique(r *core.Report) {
 			}
 		})
 		r.Check(okRet, "unique:verdict", p.Pos(fd.Pos()), "verdict compares the two counts", "the verdict is no longer the comparison of the number of items with the number of distinct keys")
+	})
+}
+
+// c01EmptyParts: a schema is empty only if every part is.
+func c01EmptyParts(r *core.Report) {
+	p := r.Prog
+	info := p.Pkg("openapi3").TypesInfo
+	r.RunRule("C01.emptyparts", "the empty-schema shortcut is universal over the parts: inside Schema.isEmpty every recursive isEmpty call on a sub-schema (items, additionalProperties, each property, each anyOf/allOf member) appears negated in an `if` whose branch returns false — one non-empty part makes the schema non-empty; a test of the form 'some member is empty' lets a schema with a constraining alternative take the shortcut, which skips the alternatives (and with them, e.g., a nullable branch)", 4, func() {
+		fd := p.DeclOf("openapi3", "Schema.isEmpty")
+		self, _ := info.Defs[fd.Name].(*types.Func)
+		n := 0
+		ast.Inspect(fd.Body, func(nd ast.Node) bool {
+			c, ok := nd.(*ast.CallExpr)
+			if !ok || core.CalleeOf(info, c) != self {
+				return true
+			}
+			n++
+			key := fmt.Sprintf("emptyparts:call#%d(%s)", n, core.ExprStr(c.Fun))
+			path := core.PathTo(fd.Body, c)
+			okForm := false
+			// the call is the operand of a `!`, that negation is a conjunct of an if condition, and the if body returns false
+			for i := len(path) - 2; i >= 0; i-- {
+				ifs, ok := path[i].(*ast.IfStmt)
+				if !ok {
+					continue
+				}
+				negated := false
+				for _, a := range core.Atoms([]core.Guard{{Cond: ifs.Cond, Pos: true}}) {
+					if !a.Pos && ast.Unparen(a.Expr) == ast.Expr(c) {
+						negated = true
+					}
+				}
+				if negated && len(ifs.Body.List) == 1 {
+					if ret, ok := ifs.Body.List[0].(*ast.ReturnStmt); ok && len(ret.Results) == 1 {
+						if v, ok := constBool(info, ret.Results[0]); ok && !v {
+							okForm = true
+						}
+					}
+				}
+				break
+			}
+			r.Check(okForm, key, p.Pos(c.Pos()), "a non-empty part returns false", "isEmpty does not return false as soon as this part is non-empty: a schema with a constraining part can be treated as the empty schema")
+			return true
+		})
+		if n < 4 {
+			core.Fail("only %d recursive isEmpty calls found", n)
+		}
 	})
 }
